@@ -189,6 +189,8 @@ def run(ctx):
             new, want, cmd = objs[::-1], before[::-1], "reverse"
         elif kind == "rotate":
             new, want, cmd = objs[k:] + objs[:k], before[k:] + before[:k], f"rotate {k}"
+        elif kind in ("setitem", "popinsert"):
+            return do_single(kind, k, hist)
         elif kind == "prefix":
             size_after = max(a - k, 0)
             n = size_after * size_after
@@ -215,6 +217,40 @@ def run(ctx):
         if s2 != size_after or after != want or any(u is not v for u, v in zip(mm.terrain, new)):
             violation({"op": "terrain", "class": "content-changed"}, f"terrain = {kind} of the tiles: contents/objects not in the assigned order ({h2})",
                       {"op": "history", "history": h2})
+
+    def do_single(kind, k, hist):
+        """single-object edits of the terrain list itself (`terrain[k] = tile`, `terrain.insert(0, terrain.pop(-1))`): the list
+        keeps its length, every tile's index / coordinates must follow its position afterwards"""
+        a, before = snapshot()
+        n = a * a
+        h2 = hist + [(kind, k)]
+        if n == 0:
+            return
+        if kind == "setitem":
+            kk = k % n
+            nt = mk_tiles(1, 7000 + kk)[0]
+            want = list(before); want[kk] = (int(nt.terrain_id), int(nt.elevation), int(nt.layer))
+            cmd = f"setitem {kk} {7000 + kk}"
+
+            def edit():
+                mm.terrain[kk] = nt
+        else:
+            want = [before[-1]] + before[:-1]
+            cmd = "popinsert"
+
+            def edit():
+                mm.terrain.insert(0, mm.terrain.pop(-1))
+        st, _ = common.outcome(edit)
+        R.case(key=("single",) + tuple(map(tuple, h2)), nontrivial=a >= 2, tags=("terrain:" + kind, f"depth{len(h2) - 1}"))
+        if st != "ok":
+            add(cmd, "error", h2)
+            violation({"op": "terrain", "class": "single-edit-raises", "how": kind}, f"{kind} on the terrain list of a {a}x{a} map raised", {"op": "history", "history": h2})
+            return
+        add(cmd, "ok " + dump(), h2)
+        check_geometry(h2)
+        s2, after = snapshot()
+        if s2 != a or after != want:
+            violation({"op": "terrain", "class": "content-changed", "how": kind}, f"{kind}: contents not as edited ({h2})", {"op": "history", "history": h2})
 
     def do_op(op, hist):
         if op[0] == "size":
@@ -400,7 +436,7 @@ def run(ctx):
         if depth == max_depth:
             return
         saved = list(mm.terrain)
-        for op in [("size", b) for b in alphabet] + [("reverse", 0), ("rotate", 1), ("prefix", 1), ("extend", 1)]:
+        for op in [("size", b) for b in alphabet] + [("reverse", 0), ("rotate", 1), ("prefix", 1), ("extend", 1), ("setitem", 2), ("popinsert", 0)]:
             add("push", "ok")
             do_op(op, hist)
             dfs(hist + [op], depth + 1, start)
